@@ -7,6 +7,8 @@ import NodisVerif.Proofs.C19Scan
 import NodisVerif.Proofs.C19ScanIter
 import NodisVerif.Proofs.C19Quiescent
 import NodisVerif.Proofs.C19History
+import NodisVerif.Proofs.C19Reopen
+import NodisVerif.Proofs.C11Examples
 /-
   C19 — a full SCAN / SSCAN / HSCAN / ZSCAN iteration returns every element and terminates.
 
@@ -20,19 +22,19 @@ import NodisVerif.Proofs.C19History
   Sections
     1. SSCAN / HSCAN / ZSCAN (positional scan + the handler's cursor reply): complete, exact, bounded.
     2. SCAN: what a single call reports exists, is live, matches, has the type.
-    3. SCAN: full iteration on a store nobody else touches. FINDING: the last key of the index is
-       never reported when COUNT divides (number of keys − 1).
+    3. SCAN: full iteration on a store nobody else touches: complete, exact, ⌈n / count⌉ calls.
     4. SCAN: iteration while keys are added / removed. FINDING: removing a key that sorts before
        the cursor makes the iteration skip a key that was there all the time.
-    5. SCAN never looks at values (hot or cold: same replies). FINDING: records created by a
-       reopen have no cached type, `SCAN … TYPE t` does not report them.
+    5. SCAN looks at values only to learn the type of a never-loaded record for a TYPE filter: hot
+       or cold, same replies; after a close / reopen `SCAN … TYPE t` reports exactly the keys that
+       had a value of type t.
 -/
 namespace NodisVerif.C19
 open NodisVerif.Spec.Scan
 open NodisVerif.Proofs.C19Pos (hstep callsNeeded)
-open NodisVerif.Proofs.C19Scan (scanStep scanOut SameButCount view)
-open NodisVerif.Proofs.C19ScanIter (I63 Missed)
-open NodisVerif.Proofs.C19Quiescent (Eligible eligibleNames callsScan)
+open NodisVerif.Proofs.C19Scan (scanStep scanOut ScanFrame view etype)
+open NodisVerif.Proofs.C19ScanIter (I63)
+open NodisVerif.Proofs.C19Quiescent (Eligible eligibleNames callsScan HotColdVariant Coherent)
 open NodisVerif.Proofs.C19History (histStep Stable Mono pos)
 open NodisVerif.Proofs
 
@@ -158,12 +160,35 @@ theorem scan_reply_shape (s : MState) (now cursor : Int) (pat : Bytes) (count : 
              .slist (scanOut (Api.scan s now cursor pat count typ).2).2] := by
   rw [C19Scan.scan_out]; rfl
 
+/-- the type a `SCAN … TYPE typ` call sees for a record (`etype`, Proofs/C19Scan.lean): the cached
+    type of a record that is in memory or has one … -/
+theorem scanType_cached (s : MState) (typ : Nat) (k : Bytes) (m : Meta) (h : typ = 0 ∨ m.vtype ≠ 0 ∨ m.value.isSome) :
+    etype s typ (k, m) = m.vtype := by
+  unfold etype
+  rw [if_neg]
+  rintro ⟨h1, h2, h3⟩
+  rcases h with h | h | h
+  · exact h1 h
+  · exact h h2
+  · simp only at h h3; rw [Option.isNone_iff_eq_none] at h3; rw [h3] at h; cases h
+
+/-- … and for a record that never had its value loaded the type of the value the backend hands
+    out (none there: 0, no type) -/
+theorem scanType_loaded (s : MState) (typ : Nat) (k : Bytes) (m : Meta) (h0 : typ ≠ 0) (h1 : m.vtype = 0)
+    (h2 : m.value = none) :
+    etype s typ (k, m) = match Store.loadValue s k m with | some (v, _) => v.typeCode | none => 0 := by
+  unfold etype
+  rw [if_pos ⟨h0, h1, by rw [h2]; rfl⟩]
+  cases Store.loadValue s k m with
+  | none => simp [h1]
+  | some vo => rfl
+
 /-- ANY call (any store, cursor, count, pattern, type): every reported key is the name of an
     indexed record that has not expired at `now`, matches the pattern and, if a type is asked
-    for, has that cached type -/
+    for, has that type -/
 theorem scan_only_existing (s : MState) (now cursor : Int) (pat : Bytes) (count : Int) (typ : Nat) (x : Bytes)
     (hx : x ∈ (scanOut (Api.scan s now cursor pat count typ).2).2) :
-    ∃ m, (x, m) ∈ s.index ∧ m.expired now = false ∧ Glob.matched pat x = true ∧ (typ ≠ 0 → m.vtype = typ) := by
+    ∃ m, (x, m) ∈ s.index ∧ m.expired now = false ∧ Glob.matched pat x = true ∧ (typ ≠ 0 → etype s typ (x, m) = typ) := by
   obtain ⟨m, hm, he⟩ := C19Quiescent.scan_sound s now cursor pat count typ x hx
   refine ⟨m, hm, ?_⟩
   simp only [C19Quiescent.Eligible, Bool.and_eq_true, Bool.not_eq_true', Bool.or_eq_true, beq_iff_eq] at he
@@ -177,153 +202,103 @@ theorem scan_only_existing (s : MState) (now cursor : Int) (pat : Bytes) (count 
 /-- with a proper (btree) index the record is the one a lookup of the name finds -/
 theorem scan_only_existing_lookup (s : MState) (hs : AList.Sorted s.index) (now cursor : Int) (pat : Bytes)
     (count : Int) (typ : Nat) (x : Bytes) (hx : x ∈ (scanOut (Api.scan s now cursor pat count typ).2).2) :
-    ∃ m, Store.getMeta s x = some m ∧ m.expired now = false ∧ Glob.matched pat x = true ∧ (typ ≠ 0 → m.vtype = typ) := by
+    ∃ m, Store.getMeta s x = some m ∧ m.expired now = false ∧ Glob.matched pat x = true ∧
+      (typ ≠ 0 → etype s typ (x, m) = typ) := by
   obtain ⟨m, hm, h⟩ := scan_only_existing s now cursor pat count typ x hx
   exact ⟨m, AListLemmas2.get?_of_mem s.index hs x m hm, h⟩
 
 /-! ## 3. full iteration on a quiescent store -/
 
-/-- a SCAN call changes nothing in the store except access counters of index records: all other
-    components are equal and the index is equal record by record once counters are blanked
-    (in particular names, deadlines, cached types, values) -/
+/-- what a SCAN call does to the store (proper index): only the index changes; record by record
+    nothing changes but the access counter and what loading a value sets (value, cached type,
+    state, oid) — names, deadlines, key identities and storage positions stay; without a TYPE
+    filter nothing changes but the counters -/
 theorem scan_frame (s : MState) (hs : AList.Sorted s.index) (now cursor : Int) (pat : Bytes) (count : Int) (typ : Nat) :
     let s' := (Api.scan s now cursor pat count typ).1
     s' = { s with index := s'.index } ∧
-    s'.index.map (fun e => (e.1, { e.2 with count := 0 })) = s.index.map (fun e => (e.1, { e.2 with count := 0 })) :=
-  C19Scan.scan_frame s hs now cursor pat count typ
+    s'.index.map (fun e => (e.1, { e.2 with count := 0, value := none, vtype := 0, state := 0, oid := 0 }))
+      = s.index.map (fun e => (e.1, { e.2 with count := 0, value := none, vtype := 0, state := 0, oid := 0 })) ∧
+    (typ = 0 → s'.index.map (fun e => (e.1, { e.2 with count := 0 })) = s.index.map (fun e => (e.1, { e.2 with count := 0 }))) :=
+  have h := C19Scan.scan_frame s hs now cursor pat count typ
+  ⟨h.rest, h.other, h.untyped⟩
 
+/-- … and what a later call with the same TYPE looks at — names, deadlines, types as the filter
+    sees them — is unchanged -/
 theorem scan_keeps_names_deadlines_types (s : MState) (hs : AList.Sorted s.index) (now cursor : Int) (pat : Bytes)
     (count : Int) (typ : Nat) :
-    (Api.scan s now cursor pat count typ).1.index.map (fun e => (e.1, e.2.exp, e.2.vtype))
-      = s.index.map (fun e => (e.1, e.2.exp, e.2.vtype)) :=
-  (C19Scan.scan_frame s hs now cursor pat count typ).view
+    let s' := (Api.scan s now cursor pat count typ).1
+    s'.index.map (fun e => (e.1, e.2.exp, etype s' typ e)) = s.index.map (fun e => (e.1, e.2.exp, etype s typ e)) :=
+  (C19Scan.scan_frame s hs now cursor pat count typ).view_eq
 
 theorem scan_keeps_sorted (s : MState) (hs : AList.Sorted s.index) (now cursor : Int) (pat : Bytes)
     (count : Int) (typ : Nat) : AList.Sorted (Api.scan s now cursor pat count typ).1.index :=
   (C19Scan.scan_frame s hs now cursor pat count typ).sorted hs
 
-/- FULL STATEMENT WANTED (false, see `scan_complete_quiescent_finding`):
-     for every count > 0 the iteration of `Api.scan` from cursor 0 on a store nobody else touches
-     terminates within n + 1 calls and reports exactly the eligible names (`eligibleNames now pat
-     typ s.index`), each once.
-   What holds exactly (`scan_complete_quiescent_exact`): termination within n + 1 calls always; the
-   reported names are exactly the eligible names of the index WITHOUT ITS LAST RECORD when
-       LastMissed n count  :=  n ≥ 2 ∧ count ∣ n − 1
-   and of the whole index otherwise. No duplicates in either case. -/
-
-/-- the finding region of section 3: index length n ≥ 2 and COUNT divides n − 1
-    (`Missed n k 0` unfolds to `(n - 1) % k = 0 ∧ n - 1 > 0`) -/
-abbrev LastMissed (n k : Nat) : Prop := Missed n k 0
-
-theorem lastMissed_iff (n k : Nat) : LastMissed n k ↔ (k ∣ n - 1 ∧ 2 ≤ n) := by
-  unfold LastMissed Missed
-  rw [Nat.sub_zero, Nat.dvd_iff_mod_eq_zero]
-  constructor <;> (rintro ⟨h1, h2⟩; exact ⟨h1, by omega⟩)
-
-/-- exact behaviour for every 0 < count < 2^63 (= every positive int64) on every store with a
-    proper index of fewer than 2^63 records -/
-theorem scan_complete_quiescent_exact (s : MState) (hs : AList.Sorted s.index) (hn : (s.index.length : Int) < 2 ^ 63)
+/-- SCAN_COMPLETE_QUIESCENT, full statement: for every 0 < count < 2^63 (= every positive int64)
+    on every store with a proper index of fewer than 2^63 records, iterating `Api.scan` from
+    cursor 0 ends after exactly `callsScan n count` calls and the batches, concatenated, are
+    exactly the eligible names of the index in index order — each once, nothing else -/
+theorem scan_complete_quiescent (s : MState) (hs : AList.Sorted s.index) (hn : (s.index.length : Int) < 2 ^ 63)
     (now : Int) (pat : Bytes) (typ : Nat) (count : Int) (hc : 0 < count) (hc2 : count < 2 ^ 63) :
     FullIteration (fun fuel => iterateS (scanStep now pat count typ) fuel s)
-      (callsScan s.index.length count.toNat)
-      (eligibleNames now pat typ (if LastMissed s.index.length count.toNat then s.index.dropLast else s.index)) := by
+      (callsScan s.index.length count.toNat) (eligibleNames s now pat typ s.index) := by
   have h := C19Quiescent.scan_full_pos s hs (by unfold I63; omega) now pat typ count.toNat (by omega)
     (by unfold I63; omega)
   rw [Int.toNat_of_nonneg (by omega)] at h
   exact h
 
-/-- outside the finding region: complete and exact -/
-theorem scan_complete_quiescent_partial (s : MState) (hs : AList.Sorted s.index) (hn : (s.index.length : Int) < 2 ^ 63)
-    (now : Int) (pat : Bytes) (typ : Nat) (count : Int) (hc : 0 < count) (hc2 : count < 2 ^ 63)
-    (hreg : ¬ LastMissed s.index.length count.toNat) :
-    FullIteration (fun fuel => iterateS (scanStep now pat count typ) fuel s)
-      (callsScan s.index.length count.toNat) (eligibleNames now pat typ s.index) := by
-  have h := scan_complete_quiescent_exact s hs hn now pat typ count hc hc2
-  rwa [if_neg hreg] at h
+/-- the number of calls: 1 on an empty index, else ⌈n / count⌉ (the call whose batch reaches the
+    end of the index answers 0 itself: no extra empty call) … -/
+theorem scan_calls_eq (n k : Nat) : callsScan n k = if n = 0 then 1 else (n + k - 1) / k := rfl
 
-/-- the number of calls is at most n + 1 … -/
-theorem scan_calls_bound (n : Nat) (count : Int) (hc : 0 < count) : callsScan n count.toNat ≤ n + 1 :=
-  C19Quiescent.callsScan_le n count.toNat (by omega)
+theorem scan_calls_ceil (n : Nat) (count : Int) (hc : 0 < count) (hn : 0 < n) :
+    n ≤ callsScan n count.toNat * count.toNat ∧ (callsScan n count.toNat - 1) * count.toNat < n :=
+  C19Quiescent.callsScan_ceil n count.toNat (by omega) hn
 
-/-- … precisely: 1 on an empty index, ⌈n / count⌉ + 1 outside the finding region (the extra call
-    is the one that answers 0), ⌈n / count⌉ inside -/
-theorem scan_calls_eq (n : Nat) (k : Nat) :
-    callsScan n k = if n = 0 then 1 else (n + k - 1) / k + (if LastMissed n k then 0 else 1) := rfl
+/-- … at most max n 1, in particular at most n + 1 -/
+theorem scan_calls_bound (n : Nat) (count : Int) (hc : 0 < count) :
+    callsScan n count.toNat ≤ max n 1 ∧ callsScan n count.toNat ≤ n + 1 := by
+  have := C19Quiescent.callsScan_le n count.toNat (by omega)
+  exact ⟨this, by omega⟩
 
 /-- every eligible name is reported exactly once: the reported names of a proper index are
-    pairwise different (so: no duplicates across batches) -/
-theorem scan_no_duplicates (now : Int) (pat : Bytes) (typ : Nat) (idx : AList Meta) (hs : AList.Sorted idx) :
-    (eligibleNames now pat typ idx).Nodup ∧ (eligibleNames now pat typ idx.dropLast).Nodup := by
-  refine ⟨C19Quiescent.eligibleNames_nodup now pat typ idx hs, C19Quiescent.eligibleNames_nodup now pat typ _ ?_⟩
-  rw [AListLemmas2.sorted_iff_pairwise] at hs ⊢
-  exact hs.sublist (List.dropLast_sublist idx)
+    pairwise different (no duplicates across batches) -/
+theorem scan_no_duplicates (s : MState) (hs : AList.Sorted s.index) (now : Int) (pat : Bytes) (typ : Nat) :
+    (eligibleNames s now pat typ s.index).Nodup :=
+  C19Quiescent.eligibleNames_nodup s now pat typ s.index hs
 
-/-- inside the finding region the last key of the index is not reported, whatever it is -/
-theorem scan_last_key_missed (s : MState) (hs : AList.Sorted s.index) (hn : (s.index.length : Int) < 2 ^ 63)
-    (now : Int) (pat : Bytes) (typ : Nat) (count : Int) (hc : 0 < count) (hc2 : count < 2 ^ 63)
-    (hreg : LastMissed s.index.length count.toNat) (hne : s.index ≠ [])
-    (fuel : Nat) (hfuel : s.index.length + 1 ≤ fuel) :
-    terminated (iterateS (scanStep now pat count typ) fuel s) ∧
-    (s.index.getLast hne).1 ∉ visited (iterateS (scanStep now pat count typ) fuel s) := by
-  have h := scan_complete_quiescent_exact s hs hn now pat typ count hc hc2 fuel
-    (Nat.le_trans (scan_calls_bound _ count hc) hfuel)
-  rw [if_pos hreg] at h
-  refine ⟨h.1, ?_⟩
-  rw [h.2.2]
-  intro hmem
-  have hsplit : s.index.dropLast ++ [s.index.getLast hne] = s.index := List.dropLast_concat_getLast hne
-  have hnd := AListLemmas2.keys_nodup s.index hs
-  rw [← hsplit] at hnd
-  simp only [AList.keys, List.map_append, List.map_cons, List.map_nil] at hnd
-  have hdisj := (List.nodup_append.1 hnd).2.2
-  have hin : (s.index.getLast hne).1 ∈ s.index.dropLast.map (·.1) := by
-    unfold C19Quiescent.eligibleNames at hmem
-    exact (List.Sublist.map _ List.filter_sublist).subset hmem
-  exact hdisj _ hin _ (by simp) rfl
+/-- membership: the reported names are those whose record is eligible -/
+theorem mem_eligibleNames (s : MState) (hs : AList.Sorted s.index) (now : Int) (pat : Bytes) (typ : Nat) (x : Bytes) :
+    x ∈ eligibleNames s now pat typ s.index ↔ ∃ m, Store.getMeta s x = some m ∧ Eligible s now pat typ (x, m) = true :=
+  C19Reopen.mem_eligibleNames s hs now pat typ x
 
-/-- the store of the witnesses: three string keys a, b, c written through the API -/
+/-- count < 0 (any negative int64): unlimited — one call reports everything and answers 0 -/
+theorem scan_complete_quiescent_negative (s : MState) (hs : AList.Sorted s.index) (hn : (s.index.length : Int) < 2 ^ 63)
+    (now : Int) (pat : Bytes) (typ : Nat) (count : Int) (hc : -(2 ^ 63) ≤ count) (hneg : count < 0) :
+    FullIteration (fun fuel => iterateS (scanStep now pat count typ) fuel s) 1 (eligibleNames s now pat typ s.index) :=
+  C19Quiescent.scan_full_neg s hs (by unfold I63; omega) now pat typ count (by unfold I63; omega) hneg
+
+/-- count = 0 (the RESP handler rejects an explicit `COUNT 0`; the embedded API does not): on a
+    non-empty index nothing is ever reported and the cursor stays 1 — the iteration never ends -/
+theorem scan_count_zero_never_ends (s : MState) (hs : AList.Sorted s.index) (hn : (s.index.length : Int) < 2 ^ 63)
+    (h1 : 1 ≤ s.index.length) (now : Int) (pat : Bytes) (typ : Nat) (fuel : Nat) :
+    ¬ terminated (iterateS (scanStep now pat 0 typ) fuel s) ∧
+    visited (iterateS (scanStep now pat 0 typ) fuel s) = [] := by
+  rw [C19Quiescent.scan_zero_stuck s hs (by unfold I63; omega) h1 now pat typ fuel]
+  simp [terminated, visited]
+
+/-- the store of the examples: three string keys a, b, c written through the API -/
 def abc : MState :=
   (Api.set (Api.set (Api.set {} 0 [97] [49] false).1 0 [98] [50] false).1 0 [99] [51] false).1
 
-/-- WITNESS (3 keys, COUNT 2): the iteration ends after two calls having reported a and b only;
-    key c is live, matches "*", and is never returned -/
-theorem scan_complete_quiescent_finding :
-    iterateS (scanStep 0 [42] 2 0) 10 abc = ([[[97], [98]], []], true) ∧
-    eligibleNames 0 [42] 0 abc.index = [[97], [98], [99]] ∧
-    AList.Sorted abc.index ∧ LastMissed abc.index.length 2 := by decide
-
-/-- the same with the repository's own test data shape: COUNT 1 never reports the last key of an
-    index of two or more keys -/
-theorem scan_count_one_finding : iterateS (scanStep 0 [42] 1 0) 10 abc = ([[[97]], [[98]], []], true) := by decide
-
-/-- count < 0 (any negative int64): unlimited — the first call reports everything, the second
-    answers 0 -/
-theorem scan_complete_quiescent_negative (s : MState) (hs : AList.Sorted s.index) (hn : (s.index.length : Int) < 2 ^ 63)
-    (now : Int) (pat : Bytes) (typ : Nat) (count : Int) (hc : -(2 ^ 63) ≤ count) (hneg : count < 0) :
-    FullIteration (fun fuel => iterateS (scanStep now pat count typ) fuel s)
-      (if s.index.length = 0 then 1 else 2) (eligibleNames now pat typ s.index) :=
-  C19Quiescent.scan_full_neg s hs (by unfold I63; omega) now pat typ count (by unfold I63; omega) hneg
-
-/-- count = 0 (the RESP handler rejects an explicit `COUNT 0`; the embedded API does not): nothing
-    is ever reported and, with two or more records, the cursor stays 1 — the iteration never ends -/
-theorem scan_count_zero_never_ends (s : MState) (hs : AList.Sorted s.index) (hn : (s.index.length : Int) < 2 ^ 63)
-    (h2 : 2 ≤ s.index.length) (now : Int) (pat : Bytes) (typ : Nat) (fuel : Nat) :
-    ¬ terminated (iterateS (scanStep now pat 0 typ) fuel s) ∧
-    visited (iterateS (scanStep now pat 0 typ) fuel s) = [] := by
-  rw [C19Quiescent.scan_zero_stuck s hs (by unfold I63; omega) h2 now pat typ fuel]
-  simp [terminated, visited]
-
-/-- count = 0 with exactly one record: two calls, the record is not reported -/
-theorem scan_count_zero_one_record (s : MState) (hs : AList.Sorted s.index) (h1 : s.index.length = 1)
-    (now : Int) (pat : Bytes) (typ : Nat) :
-    FullIteration (fun fuel => iterateS (scanStep now pat 0 typ) fuel s) 2 [] :=
-  C19Quiescent.scan_zero_one s hs h1 now pat typ
-
-/-! non-vacuity for section 3 (`abc` is sorted, short, and 3 ∤ 2: outside the region for COUNT 3) -/
-example : AList.Sorted abc.index ∧ (abc.index.length : Int) < 2 ^ 63 ∧ ¬ LastMissed abc.index.length (3 : Int).toNat := by
-  decide
-example : iterateS (scanStep 0 [42] 3 0) 10 abc = ([[[97], [98], [99]], []], true) := by decide
-example : iterateS (scanStep 0 [42] (-1) 0) 10 abc = ([[[97], [98], [99]], []], true) := by decide
+/-! non-vacuity for section 3 (and the former finding inputs: COUNT 2 and COUNT 1 on three keys) -/
+example : AList.Sorted abc.index ∧ (abc.index.length : Int) < 2 ^ 63 ∧
+    eligibleNames abc 0 [42] 0 abc.index = [[97], [98], [99]] := by decide
+example : iterateS (scanStep 0 [42] 2 0) 10 abc = ([[[97], [98]], [[99]]], true) := by decide
+example : iterateS (scanStep 0 [42] 1 0) 10 abc = ([[[97]], [[98]], [[99]]], true) := by decide
+example : iterateS (scanStep 0 [42] 3 0) 10 abc = ([[[97], [98], [99]]], true) := by decide
+example : iterateS (scanStep 0 [42] (-1) 0) 10 abc = ([[[97], [98], [99]]], true) := by decide
+example : iterateS (scanStep 0 [42] 0 0) 4 abc = ([[], [], [], []], false) := by decide
 
 /-! ## 4. iteration while the keyspace changes -/
 
@@ -332,13 +307,12 @@ example : iterateS (scanStep 0 [42] (-1) 0) 10 abc = ([[[97], [98], [99]], []], 
    or removed between the calls.
    Proved (`scan_stable_partial`) for histories in which the position of the key in the index
    never decreases from one call to the next (keys are only added; or removed only after the key,
-   see `pos_insert_other`, `pos_delete_after`) and the key is never the last record of the index
-   (the region of section 3). -/
+   see `pos_insert_other`, `pos_delete_after`). -/
 
 /-- `hist` = the stores in which the 2nd, 3rd, … call is made (arbitrary: whatever ran in between);
-    `Stable now pat typ x t` = in store t the index is a proper btree of fewer than 2^63 records,
-    x is indexed, eligible, and not the last record; `Mono x (s :: hist)` = the position of x never
-    decreases. Then a terminated iteration has reported x. -/
+    `Stable now pat typ x t` = in store t the index is a proper btree of fewer than 2^63 records and
+    x is indexed and eligible; `Mono x (s :: hist)` = the position of x never decreases.
+    Then a terminated iteration has reported x. -/
 theorem scan_stable_partial (now : Int) (pat : Bytes) (typ : Nat) (x : Bytes) (count : Int) (hc : 0 < count) (hc2 : count < 2 ^ 63)
     (s : MState) (hist : List MState)
     (hst : ∀ t ∈ s :: hist, Stable now pat typ x t) (hmono : Mono x (s :: hist))
@@ -349,42 +323,36 @@ theorem scan_stable_partial (now : Int) (pat : Bytes) (typ : Nat) (x : Bytes) (c
   rw [Int.toNat_of_nonneg (by omega)] at h
   exact h hterm
 
-/-- `Stable` in terms of the store: lookup finds an eligible record, and some record follows -/
+/-- `Stable` in terms of the store: the record at the position of x is x's and is eligible -/
 theorem stable_iff (now : Int) (pat : Bytes) (typ : Nat) (x : Bytes) (s : MState) :
     Stable now pat typ x s ↔
-      (AList.Sorted s.index ∧ (s.index.length : Int) < 2 ^ 63 ∧ pos x s + 1 < s.index.length ∧
-        ∃ m, s.index[pos x s]? = some (x, m) ∧ Eligible now pat typ (x, m) = true) := by
+      (AList.Sorted s.index ∧ (s.index.length : Int) < 2 ^ 63 ∧
+        ∃ m, s.index[pos x s]? = some (x, m) ∧ Eligible s now pat typ (x, m) = true) := by
   unfold Stable C19History.StableV
   have hI : I63 = 2 ^ 63 := by unfold I63; omega
-  rw [C19Quiescent.view_length, hI]
-  have hp : C19History.posV x (view s) = pos x s := rfl
-  rw [hp]
+  rw [hI, C19History.posV_view]
   constructor
-  · rintro ⟨h1, h2, h3, e, he, hk⟩
-    refine ⟨h1, h2, h3, ?_⟩
-    have hx := C19History.posV_name x (view s) e (by rw [hp]; exact he)
+  · rintro ⟨h1, h2, e, he, hk⟩
+    refine ⟨h1, h2, ?_⟩
+    have hx := C19History.posV_name x (view s typ) e (by rw [C19History.posV_view]; exact he)
     simp only [view, C19Scan.viewOf, List.getElem?_map, Option.map_eq_some_iff] at he
     obtain ⟨⟨k, m⟩, hkm, rfl⟩ := he
     simp only [C19Scan.proj] at hx
     subst hx
     exact ⟨m, hkm, by rw [← C19Quiescent.keep_proj]; exact hk⟩
-  · rintro ⟨h1, h2, h3, m, hm, hk⟩
-    refine ⟨h1, h2, h3, C19Scan.proj (x, m), ?_, by rw [C19Quiescent.keep_proj]; exact hk⟩
+  · rintro ⟨h1, h2, m, hm, hk⟩
+    refine ⟨h1, h2, C19Scan.proj s typ (x, m), ?_, by rw [C19Quiescent.keep_proj]; exact hk⟩
     simp only [view, C19Scan.viewOf, List.getElem?_map, hm, Option.map_some]
 
 /-- sufficient for `Mono`: writing another key never moves x towards the front -/
 theorem pos_insert_other (s : MState) (x key : Bytes) (m : Meta) (hne : key ≠ x) :
-    pos x s ≤ pos x (Store.putMeta s key m) := by
-  unfold pos C19Scan.view
-  rw [C19History.posV_viewOf, C19History.posV_viewOf]
-  exact C19History.pos_set_ge x key m hne s.index
+    pos x s ≤ pos x (Store.putMeta s key m) :=
+  C19History.pos_set_ge x key m hne s.index
 
 /-- sufficient for `Mono`: unlinking a key that sorts after x does not move x (x indexed) -/
 theorem pos_delete_after (s : MState) (hs : AList.Sorted s.index) (x key : Bytes) (hlt : Bytes.lt x key = true)
     (hx : pos x s < s.index.length) : pos x (Store.delKey s key) = pos x s := by
-  unfold pos C19Scan.view at hx ⊢
-  rw [C19History.posV_viewOf] at hx ⊢
-  rw [C19History.posV_viewOf]
+  unfold pos at hx ⊢
   have : (Store.delKey s key).index = AList.erase s.index key := by
     unfold Store.delKey
     cases h : AList.get? s.index key with
@@ -398,79 +366,112 @@ theorem pos_delete_after (s : MState) (hs : AList.Sorted s.index) (x key : Bytes
   · omega
 
 /-- WITNESS (3 keys, COUNT 1, one deletion): after the first call (reports a, answers cursor 2)
-    key a is deleted; the second call finds cursor 2 ≥ index length 2 and answers 0. Key b was
-    indexed, live, matching and not the last record in both stores, and is never reported. -/
+    key a is deleted; the second call starts at position 2 of the index b, c: reports c and
+    answers 0. Key b was indexed, live and matching in both stores, and is never reported. -/
 theorem scan_stable_finding :
     let s1 := Store.delKey (scanStep 0 [42] 1 0 abc 0).1 [97]
-    iterateS (histStep 0 [42] 1 0) 10 (abc, [s1]) = ([[[97]], []], true) ∧
-    eligibleNames 0 [42] 0 abc.index = [[97], [98], [99]] ∧ eligibleNames 0 [42] 0 s1.index = [[98], [99]] ∧
+    iterateS (histStep 0 [42] 1 0) 10 (abc, [s1]) = ([[[97]], [[99]]], true) ∧
+    eligibleNames abc 0 [42] 0 abc.index = [[97], [98], [99]] ∧ eligibleNames s1 0 [42] 0 s1.index = [[98], [99]] ∧
     pos [98] s1 < pos [98] abc := by decide
 
 /-! non-vacuity for section 4: key b of `abc`, a key "d" added after the first call (COUNT 1) -/
 def abcd : MState := (Api.set (scanStep 0 [42] 1 0 abc 0).1 0 [100] [52] false).1
-example : pos [98] abc ≤ pos [98] abcd ∧ pos [98] abc + 1 < abc.index.length ∧ pos [98] abcd + 1 < abcd.index.length ∧
-    AList.Sorted abc.index ∧ AList.Sorted abcd.index := by decide
-example : iterateS (histStep 0 [42] 1 0) 10 (abc, [abcd]) = ([[[97]], [[98]], [[99]], []], true) := by decide
+example : pos [98] abc ≤ pos [98] abcd ∧ AList.Sorted abc.index ∧ AList.Sorted abcd.index ∧
+    abc.index[pos [98] abc]?.map (·.1) = some [98] ∧ abcd.index[pos [98] abcd]?.map (·.1) = some [98] := by decide
+example : iterateS (histStep 0 [42] 1 0) 10 (abc, [abcd]) = ([[[97]], [[98]], [[99]], [[100]]], true) := by decide
 
-/-! ## 5. hot or cold makes no difference; TYPE after a reopen does -/
+/-! ## 5. hot or cold makes no difference, also for TYPE after a reopen -/
 
-/-- two stores whose indexes agree on names, deadlines and cached types (whatever the values —
-    in memory or only in storage —, counters, states, the backend, …) get the same reply to any
-    SCAN call -/
-theorem scan_hot_cold_same (s t : MState)
-    (h : s.index.map (fun e => (e.1, e.2.exp, e.2.vtype)) = t.index.map (fun e => (e.1, e.2.exp, e.2.vtype)))
-    (now cursor : Int) (pat : Bytes) (count : Int) (typ : Nat) :
+/-- two stores that present the same names, deadlines and types-as-the-filter-sees-them (whatever
+    else differs: values in memory or not, counters, states, …) get the same reply to any SCAN call -/
+theorem scan_same_view_same_reply (s t : MState) (typ : Nat)
+    (h : s.index.map (fun e => (e.1, e.2.exp, etype s typ e)) = t.index.map (fun e => (e.1, e.2.exp, etype t typ e)))
+    (now cursor : Int) (pat : Bytes) (count : Int) :
     (Api.scan s now cursor pat count typ).2 = (Api.scan t now cursor pat count typ).2 := by
   rw [C19Scan.scan_out, C19Scan.scan_out]
-  have : view s = view t := h
+  have : view s typ = view t typ := h
   rw [this]
 
-/-- "differ only in hot/cold-ness": same index once every value is forgotten -/
-def HotColdVariant (s t : MState) : Prop :=
-  s.index.map (fun e => (e.1, { e.2 with value := none })) = t.index.map (fun e => (e.1, { e.2 with value := none }))
-
-theorem hotColdVariant_view {s t : MState} (h : HotColdVariant s t) :
-    s.index.map (fun e => (e.1, e.2.exp, e.2.vtype)) = t.index.map (fun e => (e.1, e.2.exp, e.2.vtype)) := by
-  have key : ∀ (l : AList Meta), l.map (fun e => (e.1, e.2.exp, e.2.vtype))
-      = (l.map (fun e => (e.1, { e.2 with value := none }))).map (fun e => (e.1, e.2.exp, e.2.vtype)) := by
-    intro l; rw [List.map_map]; rfl
-  rw [key s.index, key t.index, h]
+/-- SCAN_HOT_COLD_SAME: two stores over the same backend whose indexes differ only in which values
+    are in memory (`HotColdVariant`), both coherent (a record without cached type has no value in
+    memory — `setValue` sets both), get the same reply to any SCAN call, TYPE-filtered or not -/
+theorem scan_hot_cold_same (s t : MState) (h : HotColdVariant s t) (hd : s.disk = t.disk) (hp : s.pebble = t.pebble)
+    (cs : Coherent s) (ct : Coherent t) (now cursor : Int) (pat : Bytes) (count : Int) (typ : Nat) :
+    (Api.scan s now cursor pat count typ).2 = (Api.scan t now cursor pat count typ).2 :=
+  scan_same_view_same_reply s t typ (C19Quiescent.view_eq_of_hotCold s t h hd hp cs ct typ) now cursor pat count
 
 /-- … and whole iterations agree, batch by batch -/
 theorem scan_hot_cold_same_iteration (s t : MState) (hs : AList.Sorted s.index) (h : HotColdVariant s t)
+    (hd : s.disk = t.disk) (hp : s.pebble = t.pebble) (cs : Coherent s) (ct : Coherent t)
     (now : Int) (pat : Bytes) (count : Int) (typ : Nat) (fuel : Nat) :
     iterateS (scanStep now pat count typ) fuel s = iterateS (scanStep now pat count typ) fuel t := by
-  have hv : view s = view t := hotColdVariant_view h
-  have ht : AList.Sorted t.index := by
-    have hk : ∀ (l : AList Meta), AList.Sorted l ↔
-        (l.map (fun e => (e.1, { e.2 with value := none }))).Pairwise AListLemmas.KeyLt := by
-      intro l; rw [AListLemmas2.sorted_iff_pairwise, List.pairwise_map]; exact Iff.rfl
-    rw [hk] at hs ⊢
-    unfold HotColdVariant at h
-    rw [← h]; exact hs
+  have hv : view s typ = view t typ := C19Quiescent.view_eq_of_hotCold s t h hd hp cs ct typ
+  have ht : AList.Sorted t.index := (C19Quiescent.hotCold_sorted h).1 hs
   unfold iterateS
   rw [C19Quiescent.iterate_scan_eq now pat count typ s hs, C19Quiescent.iterate_scan_eq now pat count typ t ht, hv]
 
+/-- why coherence is asked: a record in memory that carries no cached type is not reported by a
+    TYPE filter, its cold twin is loaded and reported (such records are not reachable: `setValue`
+    always sets the type) -/
+theorem scan_hot_cold_needs_coherent :
+    let cold : MState := Store.reopen (Store.close (Api.set {} 0 [97] [118] false).1 0)
+    let hot : MState := { cold with index := cold.index.map fun e => (e.1, { e.2 with value := some (.str [118]) }) }
+    HotColdVariant hot cold ∧ hot.disk = cold.disk ∧ hot.pebble = cold.pebble ∧
+    scanOut (Api.scan hot 0 0 [42] 10 1).2 = (0, []) ∧ scanOut (Api.scan cold 0 0 [42] 10 1).2 = (0, [[97]]) := by
+  refine ⟨rfl, rfl, rfl, by decide +kernel, by decide +kernel⟩
+
 /-- non-vacuity: `abc` and `abc` with the value of b evicted (as `gc` does) -/
 def abcCold : MState := { abc with index := abc.index.map fun e => if e.1 = [98] then (e.1, { e.2 with value := none }) else e }
-example : HotColdVariant abc abcCold ∧ (Store.valOf abc [98]).isSome ∧ (Store.valOf abcCold [98]).isNone :=
-  ⟨by unfold HotColdVariant; rfl, by decide, by decide⟩
+example : HotColdVariant abc abcCold ∧ abc.disk = abcCold.disk ∧ abc.pebble = abcCold.pebble ∧
+    (Store.valOf abc [98]).isSome ∧ (Store.valOf abcCold [98]).isNone :=
+  ⟨by unfold HotColdVariant; rfl, rfl, rfl, by decide, by decide⟩
+example : Coherent abc ∧ Coherent abcCold := by
+  unfold Coherent; constructor <;> decide
 
-/- FULL STATEMENT WANTED (false): `SCAN … TYPE t` reports the live keys whose value has type t,
-   whether the value is in memory or only in storage.
-   The TYPE filter reads the cached type of the index record; `Store.reopen` creates records with
-   no cached type (0) and the cache is only filled when the value is loaded. -/
+/-- SCAN … TYPE right after opening a backend (`Store.reopen`; `h` = the storage invariant of C11,
+    either backend): the expected report consists of the names that match and are logically
+    there (`Spec.Persist.lookup`: live, loadable) with a value of the requested type -/
+theorem scan_type_after_reopen {s0 : MState} {x : Option Bytes} {t : Int} (h : C11.StoreInvX s0 x t)
+    (now : Int) (pat : Bytes) (typ : Nat) (htyp : typ ≠ 0) (k : Bytes) :
+    k ∈ eligibleNames (Store.reopen s0) now pat typ (Store.reopen s0).index ↔
+      (Glob.matched pat k = true ∧
+        ∃ v exp, Spec.Persist.lookup (Store.reopen s0) now k = some (v, exp) ∧ v.typeCode = typ) :=
+  C19Reopen.mem_eligibleNames_reopen h now pat typ htyp k
 
-/-- WITNESS: one string key written, store closed and reopened. `SCAN 0 TYPE string` reported the
-    key before the restart and reports nothing after it, although the key is there (an untyped
-    SCAN reports it, and after any access that loads the value the typed SCAN reports it too) -/
-theorem scan_type_after_reopen_finding :
+/-- SCAN … TYPE after a graceful restart, complete statement: on the store obtained by
+    `close` at `now` and `reopen`, iterating `SCAN … COUNT count TYPE typ` (typ ≠ 0) at time
+    now' ≥ now ends after ⌈n / count⌉ calls and reports exactly — each once — the names that
+    match and that had, before the restart, a live value of type typ.
+    (`C11.NilFree s`: on Pebble no nil string in memory, the C11 finding; trivial in memory.) -/
+theorem scan_type_after_restart {s : MState} {t now now' : Int} (h : C11.StoreInvX s none t) (ht : t ≤ now)
+    (ht' : now ≤ now') (hf : s.failSet = 0) (hnil : C11.NilFree s)
+    (hn : ((Store.reopen (Store.close s now)).index.length : Int) < 2 ^ 63)
+    (pat : Bytes) (typ : Nat) (htyp : typ ≠ 0) (count : Int) (hc : 0 < count) (hc2 : count < 2 ^ 63) :
+    let s' := Store.reopen (Store.close s now)
+    FullIteration (fun fuel => iterateS (scanStep now' pat count typ) fuel s')
+      (callsScan s'.index.length count.toNat) (eligibleNames s' now' pat typ s'.index) ∧
+    (eligibleNames s' now' pat typ s'.index).Nodup ∧
+    ∀ k, k ∈ eligibleNames s' now' pat typ s'.index ↔
+      (Glob.matched pat k = true ∧ ∃ v exp, Spec.Persist.lookup s now' k = some (v, exp) ∧ v.typeCode = typ) := by
+  have hs := C19Reopen.restart_sorted h ht (now := now)
+  exact ⟨scan_complete_quiescent _ hs hn now' pat typ count hc hc2,
+    scan_no_duplicates _ hs now' pat typ,
+    fun k => C19Reopen.mem_eligibleNames_restart h ht ht' hf hnil pat typ htyp k⟩
+
+/-- the former finding input: one string key written, store closed and reopened; `SCAN 0 TYPE
+    string` now reports the key after the restart as before it, and the call has loaded the value -/
+theorem scan_type_after_reopen_example :
     let s0 := (Api.set {} 0 [97] [118] false).1
     let s1 := Store.reopen (Store.close s0 0)
-    scanOut (Api.scan s0 0 0 [42] 10 1).2 = (1, [[97]]) ∧
-    scanOut (Api.scan s1 0 0 [42] 10 1).2 = (1, []) ∧
-    scanOut (Api.scan s1 0 0 [42] 10 0).2 = (1, [[97]]) ∧
-    scanOut (Api.scan (Api.type_ s1 0 [97]).1 0 0 [42] 10 1).2 = (1, [[97]]) := by decide +kernel
+    scanOut (Api.scan s0 0 0 [42] 10 1).2 = (0, [[97]]) ∧
+    scanOut (Api.scan s1 0 0 [42] 10 1).2 = (0, [[97]]) ∧
+    scanOut (Api.scan s1 0 0 [42] 10 3).2 = (0, []) ∧
+    (Store.valOf s1 [97]).isNone ∧ (Store.valOf (Api.scan s1 0 0 [42] 10 1).1 [97]).isSome := by
+  refine ⟨by decide +kernel, by decide +kernel, by decide +kernel, by decide +kernel, by decide +kernel⟩
+
+/-- non-vacuity of the C11 hypotheses (the example store of C11 on either backend) -/
+example : C11.StoreInvX (C11.exState false) none 0 ∧ (C11.exState false).failSet = 0 ∧ C11.NilFree (C11.exState false) :=
+  ⟨C11.exState_inv false 0, rfl, fun _ _ _ c => by cases c⟩
 
 /- UNPROVED (not attempted / left open):
    * `scan_stable_partial` is proved for histories in which the position of the key never decreases
@@ -483,6 +484,8 @@ theorem scan_type_after_reopen_finding :
    * the RESP handler `Handler.scan` (default COUNT 10, rejection of `COUNT 0`, argument parsing)
      is not composed with `Api.scan` here; all SCAN theorems are about the API call.
    * no statement here about int64 wrap-around on indexes of 2^63 or more records (excluded by
-     hypothesis `hn`; the model keeps Go's wrapping `cursor--` / `count--`). -/
+     hypothesis `hn`; the model keeps Go's wrapping `cursor--` / `count--`).
+   * `scan_frame` says which fields of a record a call may change, not that a record only ever goes
+     from cold to hot (it does: the only value a call writes is the one `loadValue` returns). -/
 
 end NodisVerif.C19
